@@ -2,7 +2,7 @@
    lru_index.rs behind a CacheStrategy; the A/B splitter routes by id parity to two caches), the
    hot-tier recent-write mirror (hot_tier.rs) and the canonical cold tier (hnsw_backend.rs
    DocumentStore: embedding, metadata, version; digest = digest(embedding)).
-   Executable, NO proofs (Proofs/TieredProofs.v).  Used by C04 and C20.
+   Executable, NO proofs (Proofs/TieredProofs.v).  Used by C04, C20 and (opx, filter_delete) C11.
 
    Abstractions (stated in checks/meta/C04.json):
    * `digest : vec -> dgst` is a Section variable (coherence.rs digest_embedding, 128-bit Murmur3);
@@ -107,6 +107,31 @@ Definition lru_get (k : N) (l : list (N * lent)) : list (N * lent) * option lent
 Definition lru_insert (cap : nat) (k : N) (e : lent) (l : list (N * lent)) : list (N * lent) :=
   if mem k l then (k, e) :: remove k l
   else (k, e) :: (if cap <=? length l then removelast l else l).
+
+(* ---------- metadata filters over the interned metadata (C11 at the tiered level) ----------
+   proto MetadataFilter restricted to the shapes that need no string parsing (Range is backend-level,
+   Model/Filter.v); `tmatch` transcribes metadata_filter.rs `matches`: a missing key never matches,
+   AND of nothing is true, OR of nothing is false, NOT without operand is false, an unset
+   filter_type matches everything.  HashMap::get = first binding of the key. *)
+Inductive tfilter :=
+| TAll                          (* MetadataFilter { filter_type: None } *)
+| TExact (k v : N)              (* ExactMatch *)
+| TIn (k : N) (vs : list N)     (* InMatch *)
+| TNot (f : tfilter)            (* NotFilter { filter: Some(f) } *)
+| TNotNone                      (* NotFilter { filter: None } *)
+| TAnd (fs : list tfilter)      (* AndFilter *)
+| TOr (fs : list tfilter).      (* OrFilter *)
+
+Fixpoint tmatch (f : tfilter) (m : meta) : bool :=
+  match f with
+  | TAll => true
+  | TExact k v => match lookup k m with Some x => N.eqb x v | None => false end
+  | TIn k vs => match lookup k m with Some x => existsb (N.eqb x) vs | None => false end
+  | TNot g => negb (tmatch g m)
+  | TNotNone => false
+  | TAnd fs => forallb (fun g => tmatch g m) fs
+  | TOr fs => existsb (fun g => tmatch g m) fs
+  end.
 
 Section Engine.
   Variable digest : vec -> dgst.
@@ -471,6 +496,64 @@ Section Engine.
     | [] => []
     | o :: r => let '(s1, x) := step s o in (x, snap s1) :: trace s1 r
     end.
+
+  (* ---------- filtered batch delete (TieredEngine::batch_delete_by_metadata_filter, C11) ----------
+     The operation lives in an EXTENDED operation type `opx` (every `op` above, plus the filtered
+     delete) so that `op`, `step`, `run`, `trace` and every C04/C20 statement about them stay exactly
+     what they were: C04_refines_map quantifies over every `op` from any orphan-free state (planted
+     mirrors allowed), and no specification over the canonical map alone can describe a delete that
+     selects by MIRROR metadata.  Proofs/TieredFilterProofs.v, Properties/C11tier.v. *)
+  (* hot_tier.scan(|meta| metadata_filter::matches(filter, meta)): the predicate sees the metadata
+     stored in the MIRROR entry (HotDocument.metadata), not the canonical one *)
+  Definition hot_scan (s : state) (f : tfilter) : list N :=
+    filter (fun id => match lookup id (hot s) with Some h => tmatch f (h_meta h) | None => false end)
+           (map fst (hot s)).
+  (* cold_tier.ids_for_metadata_filter(filter): the live documents whose stored metadata matches
+     (inverted-index fast path = scan(matches): C11_filter_exact at the backend level) *)
+  Definition cold_filter_ids (s : state) (f : tfilter) : list N :=
+    filter (fun id => match lookup id (cold s) with Some r => tmatch f (c_meta r) | None => false end)
+           (map fst (cold s)).
+  (* all_ids = hot_ids; extend(cold_ids); sort_unstable; dedup; self.batch_delete(&all_ids) *)
+  Definition filter_delete (s : state) (f : tfilter) : state * nat :=
+    batch_delete s (sort_dedup (hot_scan s f ++ cold_filter_ids s f)).
+
+  Inductive opx :=
+  | OApi (o : op)
+  | OFilterDelete (f : tfilter).
+
+  Definition stepx (s : state) (o : opx) : state * out :=
+    match o with
+    | OApi o => step s o
+    | OFilterDelete f => let '(s1, n) := filter_delete s f in (s1, RCount (Some n))
+    end.
+  Definition runx (s : state) (ops : list opx) : state := fold_left (fun acc o => fst (stepx acc o)) ops s.
+  Fixpoint tracex (s : state) (ops : list opx) : list (out * snapshot) :=
+    match ops with
+    | [] => []
+    | o :: r => let '(s1, x) := stepx s o in (x, snap s1) :: tracex s1 r
+    end.
+
+  (* VARIANT, NOT THE CODE (regression witness C11tier_mirror_merge_variant_refuted): the hot-tier half
+     of update_metadata treats a replace like a merge, so the mirror keeps the keys the replace
+     dropped from the canonical record. *)
+  Definition update_meta_mirror_merges (s : state) (id : N) (m : meta) (merge : bool) : state * bool :=
+    match lookup id (cold s) with
+    | None => (s, false)
+    | Some r =>
+        let s1 := set_cold s (put id (mkC (c_vec r) (apply_meta (c_meta r) m merge) (c_ver r)) (cold s)) in
+        let s2 := match lookup id (hot s1) with
+                  | Some h => set_hot s1 (put id (mkH (h_vec h) (meta_merge (h_meta h) m) (h_tok h)) (hot s1))
+                  | None => s1
+                  end in
+        (s2, true)
+    end.
+  Definition stepx_mirror_merges (s : state) (o : opx) : state * out :=
+    match o with
+    | OApi (OUpdMeta id m merge) => let '(s1, b) := update_meta_mirror_merges s id m merge in (s1, RBool b)
+    | _ => stepx s o
+    end.
+  Definition runx_mirror_merges (s : state) (ops : list opx) : state :=
+    fold_left (fun acc o => fst (stepx_mirror_merges acc o)) ops s.
 End Engine.
 
 (* ---------- equality of observations (evaluated by vm_compute in the cases files) ---------- *)
